@@ -329,4 +329,90 @@ theorem mpf_out_str_obj_text (base : Int) (hb : LegalBase base) (nd : Nat) (u : 
     (get_digits base.natAbs (if nd = 0 then maxDigits base.natAbs u.prec else nd) u).2
   simpa using this
 
+/-! ### import / export on objects -/
+
+theorem Limbs_replicate_zero (k : Nat) : Limbs (List.replicate k 0) := by
+  intro x hx; rw [List.mem_replicate] at hx; rw [hx.2]; exact B_pos
+
+/-- the object-level `mpz_import` stores exactly the limbs of `mpz_import` (the dispatch of import.c:60-90 followed by
+    MPN_NORMALIZE on every path) and leaves a well-formed, non-negative object -/
+theorem mpz_import_obj_spec (z : Mpz) (hz : z.WF) (count : Nat) (order : Int) (size : Nat) (endian : Int)
+    (nail align : Nat) (data : List Nat) (junk : Nat → Nat) (hj : ∀ i, junk i < B)
+    (ho : order = 1 ∨ order = -1) (he : endian = -1 ∨ endian = 0 ∨ endian = 1)
+    (hs : 1 ≤ size) (hn : nail < 8 * size) (hb : Bytes data) (hl : data.length = count * size) :
+    (mpz_import_obj z count order size endian nail align data junk).limbs
+      = mpz_import count order size endian nail align data ∧
+    (mpz_import_obj z count order size endian nail align data junk).size
+      = ((mpz_import count order size endian nail align data).length : Int) ∧
+    (mpz_import_obj z count order size endian nail align data junk).WF := by
+  obtain ⟨i1, i2, i3⟩ := mpz_import_spec count order size endian nail align data ho he hs hn hb hl
+  obtain ⟨r1, r2, r3⟩ := realloc_spec hz ((count * (8 * size - nail) + 63) / 64) hj
+  unfold mpz_import mpz_import_core at i1 i2 i3 ⊢
+  unfold mpz_import_obj
+  simp only at i1 i2 i3 ⊢
+  generalize mpz_import_fill false count order size endian nail align data = filled at i1 i2 i3 ⊢
+  generalize hzs : (count * (8 * size - nail) + 63) / 64 = zsize at *
+  generalize hz1 : mpz_realloc z zsize junk = z1 at *
+  set zp := filled.take zsize with hzp
+  have hzl : zp.length ≤ zsize := by rw [hzp, List.length_take]; omega
+  have hns := normSize_le zp
+  have hpre := normalize_prefix zp
+  obtain ⟨k, hk, htop⟩ := normalize_spec zp
+  have hLzp : Limbs zp := by
+    rw [hk]; exact Limbs_append.mpr ⟨i2, Limbs_replicate_zero k⟩
+  have hlimbs : ((zp ++ z1.d.drop zp.length).take (normSize zp)) = normalize zp := by
+    rw [List.take_append_of_le_length hns]; exact hpre
+  refine ⟨?_, ?_, ?_⟩
+  · unfold Mpz.limbs Mpz.abssize
+    simp only [Int.natAbs_natCast]
+    exact hlimbs
+  · simp only [normSize]
+  · refine ⟨?_, ?_, ?_, ?_⟩
+    · simp only [List.length_append, List.length_drop]; omega
+    · unfold Mpz.abssize; simp only [Int.natAbs_natCast]; omega
+    · exact Limbs_append.mpr ⟨hLzp, Limbs_drop r3 _⟩
+    · intro hne
+      unfold Mpz.abssize; simp only [Int.natAbs_natCast] at hne ⊢
+      have hn0 : normSize zp ≠ 0 := by exact_mod_cast hne
+      have h1 : (zp ++ z1.d.drop zp.length).getD (normSize zp - 1) 0 = (normalize zp).getLastD 0 := by
+        rw [← hlimbs, List.getLastD_eq_getLast?, List.getLast?_eq_getElem?, List.getD_eq_getElem?_getD]
+        simp only [List.length_take, List.length_append, List.length_drop]
+        have : min (normSize zp) (zp.length + (z1.d.length - zp.length)) = normSize zp := by omega
+        rw [this, List.getElem?_take_of_lt (by omega)]
+      rw [h1]
+      apply htop
+      intro he; unfold normSize at hn0; rw [he] at hn0; exact hn0 rfl
+
+/-! ### raw format: headers beyond 31 bits -/
+
+/-- the four header bytes decode to the byte count wrapped into [−2^31, 2^31) -/
+theorem csizeOf_hdrBytes_wrap (s : Int) :
+    csizeOf (hdrBytes s) = (s + 2147483648) % 4294967296 - 2147483648 := by
+  unfold hdrBytes csizeOf
+  generalize hm : (s % 4294967296).toNat = m
+  have hm4 : m < 4294967296 := by omega
+  simp only [beBytes, leBytes, List.reverse_cons, List.reverse_nil, List.nil_append, List.cons_append,
+    List.getD_cons_zero, List.getD_cons_succ]
+  have hc : ((m / 256 / 256 / 256 % 256 * 256 + m / 256 / 256 % 256) * 256 + m / 256 % 256) * 256 + m % 256 = m := by
+    omega
+  rw [hc]
+  split <;> omega
+
+/-- the pieces of the record written for `v`, for EVERY size -/
+theorem outRaw_pieces (v : Int) (rest : List Nat) :
+    (outRawBytes v ++ rest).take 4 = hdrBytes (if v < 0 then -(byteLen v.natAbs : Int) else byteLen v.natAbs) ∧
+    ((outRawBytes v ++ rest).drop 4).take (byteLen v.natAbs) = beBytes (byteLen v.natAbs) v.natAbs ∧
+    beVal (beBytes (byteLen v.natAbs) v.natAbs) = v.natAbs := by
+  set n := byteLen v.natAbs with hn
+  have hh : (hdrBytes (if v < 0 then -(n : Int) else (n : Int))).length = 4 := by simp [hdrBytes]
+  have hd : (beBytes n v.natAbs).length = n := by simp
+  have e : outRawBytes v ++ rest = hdrBytes (if v < 0 then -(n : Int) else (n : Int)) ++ (beBytes n v.natAbs ++ rest) := by
+    simp [outRawBytes, ← hn]
+  refine ⟨?_, ?_, ?_⟩
+  · rw [e, List.take_append_of_le_length (by omega), List.take_of_length_le (by omega)]
+  · have hdrop : (outRawBytes v ++ rest).drop 4 = beBytes n v.natAbs ++ rest := by
+      rw [e, List.drop_append_of_le_length (by omega), List.drop_of_length_le (by omega)]; simp
+    rw [hdrop, List.take_append_of_le_length (by omega), List.take_of_length_le (by omega)]
+  · rw [beVal_beBytes]; exact Nat.mod_eq_of_lt (lt_pow_byteLen _)
+
 end Mpir.Io
